@@ -10,6 +10,7 @@ from tools.lib import core
 
 PROP = 'C19'
 KF = 'F-JINJA-COMMENT-STAR'
+KF2 = 'F-JINJA-AUTOINDENT-NONSTR'
 
 MANIFEST = dict(
     category='proof',
@@ -201,12 +202,16 @@ def gen_autoindent(rng):
     post = rng.choice(['', '|', '\ntail', ';\n', '\n\nz'])
     nl = rng.choice(['\n', '\n', '\r\n'])
     ctx = {'x': rng.choice(VALUES), 'xs': [rng.choice(VALUES) for _ in range(rng.randrange(0, 4))], 'c': rng.random() < 0.8}
-    kind = rng.choice(['var', 'var', 'varf', 'if', 'for', 'include', 'set', 'filter', 'call', 'minus'])
+    kind = rng.choice(['var', 'var', 'varf', 'tuple', 'int', 'if', 'for', 'include', 'set', 'filter', 'call', 'minus'])
     inc = {}
     if kind == 'var':
         cons = ('{{', ' x }}')
     elif kind == 'varf':
         cons = ('{{', ' x | upper }}')
+    elif kind == 'tuple':
+        cons = ('{{', rng.choice([' x, c }}', ' x, }}', ' xs|first, xs|last }}']))
+    elif kind == 'int':
+        cons = ('{{', rng.choice([' xs|length }}', ' 5 }}', ' c }}', ' none }}', ' xs }}']))
     elif kind == 'minus':
         cons = ('{{', ' x -}}  ')
     elif kind == 'if':
@@ -240,6 +245,26 @@ TEXTS = ['a', 'b ', ' c', '\n', '  ', 'T\n', '\n  ', ';', 'é', '}', '{ ', '% ',
 SAFE_FILTERS = ['upper', 'lower', 'length', 'trim', 'first', 'last', 'string', 'list', 'capitalize', 'reverse|list', 'sort', 'abs',
                 'default("dflt")', 'join(",")', 'replace("a", "b")', 'int', 'center(7)', 'e', 'sum', 'unique|list', 'min', 'max']
 TESTS = ['defined', 'none', 'even', 'odd', 'string', 'number', 'mapping', 'iterable', 'sequence', 'divisibleby(2)', 'undefined']
+
+
+# small self-contained fragments that walk through the rest of the parser's surface (each is legal in 2.11 and 3.1)
+SYNTAX_ATOMS = [
+    '{{ a, b }}', '{{ "A", "B" }}', '{{ x|first, x|last }}', '{{ n, }}', '{{ (n, s)|last }}', '{{ [n, s][1:] }}', '{{ s[::2], s[-1], s[:1] }}',
+    '{{ -n + +n, 2 ** 3 ** 2, 7 // 2, 7 % 4, not n }}', '{{ "a" "b" ~ 1 }}', '{{ n is divisibleby 3, n is not odd, n is even }}',
+    '{{ xs|join(d=", ") }}', '{{ "%s-%s"|format(1, 2) }}', '{{ {"a": 1, "b": [1, 2,],}|dictsort }}', '{{ d.k|default("x", true) }}',
+    '{% set ns = namespace(c=0) %}{% for i in range(3) %}{% set ns.c = ns.c + i %}{% endfor %}{{ ns.c }}',
+    '{% macro mm(a, b=2) %}{{ a }}{{ b }}{{ varargs }}{{ kwargs|dictsort }}{% endmacro %}{{ mm(1, 2, 3, z=4) }}{{ mm(*[5], **{"b": 6}) }}',
+    '{% macro cc() %}[{{ caller(7) }}]{% endmacro %}{% call(v) cc() %}{{ v, v }}{% endcall %}',
+    '{% for i in range(4) recursive %}{{ i }}{% if i == 1 %}{{ loop([9]) }}{% endif %}{% endfor %}',
+    '{% for i in xs %}{{ loop.cycle("a", "b") }}{{ loop.depth }}{{ loop.previtem, loop.nextitem }}{% endfor %}',
+    '{% with a=1, b=(2, 3) %}{{ a, b }}{% endwith %}', '{% with %}{% set q = 1, %}{{ q }}{% endwith %}',
+    '{% filter upper|replace("A", "b") %}aa{% endfilter %}', '{% set t %}x{{ n }}{% endset %}{{ t, t|length }}',
+    '{% if n is defined and (n, s) %}t{% endif %}', '{% if n in (1, 2, 3,) %}in{% else %}out{% endif %}',
+    '{% from "lib" import dbl, K %}{{ dbl(K), K }}', '{% from "lib" import dbl as f, K as k2, %}{{ f(k2) }}',
+    '{% block scoped_b scoped %}{{ n }}{% endblock %}', '{% include ["nope", "inc"] ignore missing with context %}',
+    '{{ (n if n else s), (n if false) }}', '{{ xs|map("string")|list, xs|select("odd")|list|length }}', '{{ d["k"], d.get("zz", 5), xs[0] if xs }}',
+    '{{ 1 if n, 2 }}', '{{ [a for a in xs] }}', '{{ a, b = 1 }}', '{% set a, b = 1 %}', '{% for in xs %}{% endfor %}', '{{ , }}', '{{ (,) }}',
+]
 
 
 class TGen:
@@ -308,12 +333,20 @@ class TGen:
     def node(self, d: int) -> str:
         r = self.rng
         k = r.randrange(18 if d < 3 else 4)
+        if r.random() < 0.06:
+            return r.choice(SYNTAX_ATOMS)
         if r.random() < 0.015:
             # near-marker junk: a sign between opener and `*` is a syntax error in BOTH engines (2.x: operator `+`/`*`, 3.x: sign then `*`)
             return r.choice([' {%+* if x %}y{% endif %}', ' {{+* x }}', ' {%-* if x %}y{% endif %}', '\t{{-* x }}'])
         if k <= 1:
             return self.text()
         if k <= 3:
+            if r.random() < 0.25:
+                # print statements are parsed with parse_tuple: bare tuples, trailing comma, conditional expressions at top level
+                e = r.choice(['%s, %s' % (self.expr(1), self.expr(1)), '%s,' % self.atom(), 'x|first, x|last', '%s, %s, %s' % (self.atom(), self.atom(), self.atom()),
+                              '%s if %s' % (self.atom(), self.atom()), '(%s, %s)|join("+")' % (self.atom(), self.atom()), '1, (2, 3), [4, 5,], {"k": (6,)}',
+                              '%s, %s if %s else %s' % (self.atom(), self.atom(), self.atom(), self.atom())])
+                return '{{' + self.ws('l') + ' ' + e + ' ' + self.ws('r') + '}}'
             return '{{' + self.ws('l') + ' ' + self.expr() + ' ' + self.ws('r') + '}}'
         if k == 4:
             c = r.choice([' c ', 'c', '', ' {{ x }} ', ' {% if %} ', '-', ' * ', '#'])
@@ -326,7 +359,10 @@ class TGen:
             indent = r.choice(['\n  ', '\n\t', '   ']) if r.random() < (0.3 if self.lstrip else 0.08) else ''
             return indent + '{#' + ('-' if r.random() < 0.1 else '') + c + ('-' if r.random() < 0.1 else '') + '#}'
         if k == 5:
-            s = self.tag('if ' + self.expr()) + self.body(d + 1)
+            cond = self.expr()
+            if r.random() < 0.15:   # parse_if uses parse_tuple(with_condexpr=False): implicit tuples are legal tests
+                cond = r.choice(['n in xs, 2', 'x, y', 'n in 1, 2', '(), ()', 'n,'])
+            s = self.tag('if ' + cond) + self.body(d + 1)
             if r.random() < 0.4:
                 s += self.tag('elif ' + self.expr()) + self.body(d + 1)
             if r.random() < 0.5:
@@ -335,7 +371,13 @@ class TGen:
         if k == 6:
             it = r.choice(['xs', 'range(3)', 'd', 's', '[]', 'xs|reverse', 'd.items()'])
             filtered = r.random() < 0.15
-            s = self.tag('for i in ' + it + (' if i' if filtered else '')) + self.body(d + 1)
+            head = 'for i in ' + it
+            if r.random() < 0.25:   # tuple targets and implicit tuples as iterables
+                head = r.choice(['for k, v in d.items()', 'for k, v in d|dictsort', 'for i in 1, 2, 3', 'for i in n, "s"', 'for (a, b) in [(1, 2), (3, 4)]',
+                                 'for a, b in [(1, 2), (3, 4)]', 'for i, in [(1,), (2,)]', 'for k, v in xs'])
+            s = self.tag(head + (' if i' if filtered and head.startswith('for i in') else '')) + self.body(d + 1)
+            if 'k, v' in head or 'a, b' in head or '(a, b)' in head:
+                s += r.choice(['', '{{ k, v }}' if 'k, v' in head else '{{ a, b }}'])
             # loop.length / revindex / last of a FILTERED loop were wrong in 2.x (upstream fix): not combined
             if r.random() < 0.3 and not filtered:
                 s += '{{ loop.index }}{{ loop.first }}{{ loop.last }}{{ loop.length }}{{ loop.revindex0 }}'
@@ -343,6 +385,9 @@ class TGen:
                 s += self.tag('else') + self.body(d + 1)
             return s + self.tag('endfor')
         if k == 7:
+            if r.random() < 0.3:
+                return self.tag(r.choice(['set a, b = %s, %s' % (self.atom(), self.atom()), 'set a, b = (1, 2)', 'set (a, b) = 3, 4', 'set a, = [n]',
+                                          'set a, b = xs', 'set t = 1, 2', 'set t = n,'])) + r.choice(['{{ a }}', '{{ a, b }}', '{{ t }}', ''])
             return self.tag('set %s = %s' % (r.choice(['y', 'x', 'n']), self.expr()))
         if k == 8:
             return self.tag('set blk') + self.body(d + 1) + self.tag('endset') + '{{ blk }}'
@@ -454,11 +499,12 @@ def main(chk: core.Check, replay: typing.Optional[str] = None) -> int:
     n_lp = 1200 if quick else 12000
     n_ai = 300 if quick else 3000
     n_ext = 200 if quick else 2000
+    n_seq = 150 if quick else 1500
     n_diff = 1500 if quick else 20000
     rng = chk.rng
 
     # ---- 1. proof obligations against the regenerated translation --------------------------------
-    res = core.coq_check('C19', ['uni', 'jinjascan', 'jinjarules'])
+    res = core.coq_check('C19', ['uni', 'jinjascan', 'jinjarules', 'jinjapins'])
     chk.proof_coverage(res, [
         'tools/translators/gen_c19.py: root/comment/raw rule patterns of the bundled lexer (ast-rebuilt and compared with the live compiled '
         'rule), root rule of the installed stock Jinja2, do_lineprefix shape translator, autoindent constants, extension skeletons; '
@@ -479,12 +525,11 @@ def main(chk: core.Check, replay: typing.Optional[str] = None) -> int:
     # ---- known finding probe --------------------------------------------------------------------
     # (known_findings.json is merged from known_findings.d/ by the lead; read our own fragment too so that the check is
     #  correct before and after that merge -- nothing is ever written)
-    if chk.known_entry(KF) is None:
-        try:
-            with open(os.path.join(core.VERIF, 'known_findings.d', 'C19.json'), encoding='utf-8') as f:
-                chk.known += [e for e in json.load(f)['findings'] if PROP in e['properties']]
-        except OSError:
-            pass
+    try:
+        with open(os.path.join(core.VERIF, 'known_findings.d', 'C19.json'), encoding='utf-8') as f:
+            chk.known += [e for e in json.load(f)['findings'] if PROP in e['properties'] and chk.known_entry(e['id']) is None]
+    except OSError:
+        pass
     kf_live = False
     if chk.is_known(KF):
         w = chk.known_entry(KF)['witness']
@@ -492,6 +537,14 @@ def main(chk: core.Check, replay: typing.Optional[str] = None) -> int:
         kf_live = r.get('b', {}).get('ok') == w['bundled'] and r.get('s', {}).get('ok') == w['stock'] and w['bundled'] != w['stock']
         if kf_live:
             chk.report_known(KF)
+
+    kf2_live = False
+    if chk.is_known(KF2):
+        w2 = chk.known_entry(KF2)['witness']
+        r2 = run_impl('render_b', [{'templates': {'main': w2['template']}, 'main': 'main', 'ctx': {}}])[0]
+        kf2_live = r2.get('err') == w2['bundled_error']
+        if kf2_live:
+            chk.report_known(KF2)
 
     def kf_trigger(text: str) -> bool:
         """a comment opener directly followed by `*`"""
@@ -654,7 +707,9 @@ def main(chk: core.Check, replay: typing.Optional[str] = None) -> int:
             post = post.lstrip()
         expected = a['pre'] + lineprefix_oracle(a['plain_out'], a['ws']) + post
         got = r_marker[i].get('ok')
-        if got != expected:
+        if got != expected and kf2_live and a['kind'] in ('tuple', 'int') and r_marker[i].get('err') == 'AttributeError':
+            bump('known_finding_instances_autoindent_nonstr')     # trigger: the value of the marker print statement is not a str
+        elif got != expected:
             bad_oracle.append({'level': 'autoindent', 'case': {k: a[k] for k in ('marker', 'plain', 'ctx', 'ws', 'kind')}, 'implementation': r_marker[i],
                                'expected': expected})
         if ok_model:
@@ -721,6 +776,78 @@ def main(chk: core.Check, replay: typing.Optional[str] = None) -> int:
                 if m_ext[i] != ('OK out' if okout else 'OK raise'):
                     bad_model.append({'tie': 'render_assert vs CodeGenEnvironment', 'case': c, 'model': m_ext[i], 'implementation': r_ext[i]})
     samples += ext_cases[:3]
+
+    # ---- 4b. ONE long-lived CodeGenEnvironment, several renders, use queries whose answers change between and during renders
+    #          (scripts advancing with every call; query attributes re-pointed between renders) vs. the model run over the same
+    #          scripts and vs. the ordinary {% if q() %} chains rendered by stock Jinja2 over the same scripts ---------------
+    seq_cases, seq_model, seq_meta = [], [], []
+    for _ in range(n_seq):
+        nq = rng.randrange(1, 4)
+        scripts = {'q%d' % j: [rng.random() < 0.5 for _ in range(rng.randrange(1, 7))] for j in range(nq)}
+        scripts['a0'] = [rng.random() < 0.7 for _ in range(rng.randrange(1, 4))]
+        templates, plain, chains_of = {}, {}, {}
+        for t in range(rng.randrange(1, 4)):
+            src = pl = ''
+            chains = []
+            for _c in range(rng.randrange(1, 4)):     # several chains per template: the same query is asked again mid-render
+                ncl = rng.randrange(1, 4)
+                cl = [(rng.random() < 0.5, rng.randrange(nq), 10 * len(chains) + j + 1) for j in range(ncl)]
+                els = 9 if rng.random() < 0.5 else 0
+                for j, (neg, q, b) in enumerate(cl):
+                    src += '{%% %s%s "q%d" %%}%d;' % ('if' if j == 0 else 'elif', 'nuses' if neg else 'uses', q, b)
+                    pl += '{%% %s %sq%d() %%}%d;' % ('if' if j == 0 else 'elif', 'not ' if neg else '', q, b)
+                if els:
+                    src += '{% else %}9;'
+                    pl += '{% else %}9;'
+                src += '{%% %s %%}' % rng.choice(['endifuses', 'endifnuses'])
+                pl += '{% endif %}'
+                chains.append((els, cl))
+            templates['t%d' % t], plain['t%d' % t], chains_of['t%d' % t] = src, pl, chains
+        templates['a'] = '{% assert a0() %}ok'
+        plain['a'] = '{% if not a0() %}RAISE{% endif %}ok'
+        steps = [rng.choice(sorted(templates)) for _ in range(rng.randrange(2, 7))]
+        seq_cases.append({'templates': templates, 'plain': plain, 'scripts': scripts, 'steps': steps})
+        flat = [ch for st in steps if st != 'a' for ch in chains_of[st]]
+        seq_meta.append((steps, chains_of))
+        seq_model.append('Q %s %s' % (','.join('%s:%s' % (k[1:], '.'.join('1' if b else '0' for b in v)) for k, v in sorted(scripts.items()) if k != 'a0'),
+                                      ' '.join('/'.join(['%d' % els] + ['%d,%d,%d' % (neg, q, b) for neg, q, b in cl]) for els, cl in flat)))
+    r_seq = run_impl('ext_seq', seq_cases)
+    m_seq = run_model(exe, seq_model) if ok_model else []
+    for i, (c, r) in enumerate(zip(seq_cases, r_seq)):
+        bump('seq_cases')
+        if 'setup_error' in r or 'harness_failure' in r:
+            bad_model.append({'tie': 'ext_seq harness', 'detail': r})
+            continue
+        steps, chains_of = seq_meta[i]
+        # property oracle: every render equals the ordinary conditional chain in stock Jinja2 (assert: raises iff falsy)
+        for j, st in enumerate(steps):
+            n_, s_ = r['n'][j], r['s'][j]
+            if st == 'a':
+                ok = (n_.get('err') == 'TemplateAssertionError' and s_.get('ok') == 'RAISEok') or (n_.get('ok') == 'ok' and s_.get('ok') == 'ok')
+            else:
+                ok = 'ok' in n_ and n_.get('ok') == s_.get('ok')
+            if not ok:
+                bad_oracle.append({'level': 'ifuses/assert over renders in one environment', 'case': c, 'render_index': j, 'nunavut': r['n'], 'ordinary_conditionals_in_stock_jinja2': r['s']})
+                break
+        if ok_model and m_seq[i].startswith('OK'):
+            nums = m_seq[i].split(' ')[1:]
+            k, exp = 0, []
+            for st in steps:
+                if st == 'a':
+                    exp.append(None)
+                    continue
+                n_ch = len(chains_of[st])
+                exp.append(''.join('%s;' % x for x in nums[k:k + n_ch] if x != '0'))
+                k += n_ch
+            got = [None if st == 'a' else r['n'][j].get('ok') for j, st in enumerate(steps)]
+            bump('traces_ext_seq')
+            if got != exp:
+                bad_model.append({'tie': 'render_ifuses_script (parse_ifusesT/eval_ifT) vs renders in one CodeGenEnvironment', 'case': c, 'model': exp, 'implementation': got})
+        elif ok_model:
+            bad_model.append({'tie': 'render_ifuses_script', 'model': m_seq[i]})
+        if len(set(map(str, r['n']))) > 1:
+            distinct.add(('seq', json.dumps(c, sort_keys=True)))
+    samples += seq_cases[:2]
 
     # ---- 5. differential rendering: the part no model covers ---------------------------------------------------
     diff_cases = [gen_diff_case(rng, with_star_comment=(kf_live and rng.random() < 0.1)) for _ in range(n_diff)]
